@@ -62,3 +62,90 @@ func NormalizeFunctionNames(expression string) string {
 	sb.WriteString(expression[last:])
 	return sb.String()
 }
+
+// NormalizeSQLOperators rewrites the SQL spellings of logical and equality operators to the ones expr-lang knows:
+// AND -> &&, OR -> ||, NOT -> not (a logical NOT only: "IS NOT" and "NOT LIKE" keep their spelling for the
+// IS NULL / LIKE rewriting), and a single = -> ==. Keywords are matched case-insensitively as whole words; text
+// inside quotes or backticks is left alone. The WHERE / HAVING parser lowers these itself; SELECT items reach the
+// bridge verbatim.
+func NormalizeSQLOperators(expression string) string {
+	isWord := func(c byte) bool {
+		return c == '_' || (c >= 'a' && c <= 'z') || (c >= 'A' && c <= 'Z') || (c >= '0' && c <= '9')
+	}
+	isOp := func(c byte) bool { return c == '=' || c == '<' || c == '>' || c == '!' }
+	var b strings.Builder
+	b.Grow(len(expression) + 8)
+	n := len(expression)
+	var quote byte
+	lastWord := "" // previous complete word, upper case
+	for i := 0; i < n; i++ {
+		c := expression[i]
+		if quote != 0 {
+			b.WriteByte(c)
+			if c == quote {
+				quote = 0
+			}
+			continue
+		}
+		switch {
+		case c == '\'' || c == '"' || c == '`':
+			quote = c
+			b.WriteByte(c)
+			lastWord = ""
+		case c == '=':
+			var prev, next byte
+			if i > 0 {
+				prev = expression[i-1]
+			}
+			if i+1 < n {
+				next = expression[i+1]
+			}
+			if !isOp(prev) && !isOp(next) {
+				b.WriteString("==")
+			} else {
+				b.WriteByte(c)
+			}
+			lastWord = ""
+		case isWord(c) && (i == 0 || !isWord(expression[i-1])):
+			j := i
+			for j < n && isWord(expression[j]) {
+				j++
+			}
+			word := expression[i:j]
+			upper := strings.ToUpper(word)
+			member := i > 0 && expression[i-1] == '.'
+			switch {
+			case member:
+				b.WriteString(word)
+			case upper == "AND":
+				b.WriteString("&&")
+			case upper == "OR":
+				b.WriteString("||")
+			case upper == "NOT" && lastWord != "IS" && !nextWordIs(expression, j, "LIKE"):
+				b.WriteString("not")
+			default:
+				b.WriteString(word)
+			}
+			lastWord = upper
+			i = j - 1
+		default:
+			b.WriteByte(c)
+			if c != ' ' && c != '\t' && c != '\n' && c != '\r' {
+				lastWord = ""
+			}
+		}
+	}
+	return b.String()
+}
+
+// nextWordIs reports whether the next word after position i (skipping white space) is word (upper case).
+func nextWordIs(s string, i int, word string) bool {
+	for i < len(s) && (s[i] == ' ' || s[i] == '\t' || s[i] == '\n' || s[i] == '\r') {
+		i++
+	}
+	if i+len(word) > len(s) || strings.ToUpper(s[i:i+len(word)]) != word {
+		return false
+	}
+	j := i + len(word)
+	return j >= len(s) || !(s[j] == '_' || (s[j] >= 'a' && s[j] <= 'z') || (s[j] >= 'A' && s[j] <= 'Z') || (s[j] >= '0' && s[j] <= '9'))
+}
